@@ -242,8 +242,8 @@ func (f *Font) selectWidths() (float64, float64) {
 	numGlyphs := int32(len(f.Glyphs))
 	if numGlyphs == 0 {
 		return 0, 0
-	} else if numGlyphs == 1 {
-		return f.Glyphs[0].Width, f.Glyphs[0].Width
+	} else if w := f.Glyphs[0].Width; numGlyphs == 1 && dictWidth(w) == w {
+		return w, w
 	}
 
 	widthHist := make(map[float64]int32)
@@ -251,7 +251,9 @@ func (f *Font) selectWidths() (float64, float64) {
 	var defaultWidth float64
 	for _, glyph := range f.Glyphs {
 		w := glyph.Width
-		if math.Abs(w) > 32767 {
+		if math.Abs(w) > 32767 || dictWidth(w) != w {
+			// The Private DICT keeps nine significant digits of a
+			// fractional value: such a width cannot be the default.
 			continue
 		}
 		widthHist[w]++
@@ -292,6 +294,16 @@ func (f *Font) selectWidths() (float64, float64) {
 		} else if nominalWidth > hi {
 			nominalWidth = hi
 		}
+		// The charstrings give the widths relative to the value found in the
+		// Private DICT, which keeps nine significant digits of a fractional
+		// value: use an integer wherever the range allows it.
+		if r := math.Round(nominalWidth); r >= lo && r <= hi {
+			nominalWidth = r
+		} else if c := math.Ceil(lo); c <= hi {
+			nominalWidth = c
+		}
+	} else {
+		nominalWidth = math.Round(nominalWidth)
 	}
 	return defaultWidth, nominalWidth
 }
